@@ -113,6 +113,29 @@ def literal_value(n):
     return None
 
 
+def const_int(n, depth=0):
+    """value of an integral constant expression built from literals, const globals with literal initialisers, | & + - ~ << and casts; None otherwise"""
+    n = ir.unwrap(n)
+    if not isinstance(n, dict) or depth > 8:
+        return None
+    k = n.get("k")
+    if k == "lit":
+        return n["v"] if n.get("t") in ("int", "char") and isinstance(n.get("v"), int) else None
+    if k in ("cast", "paren"):
+        return const_int(n.get("e"), depth + 1)
+    if k == "ref" and n.get("const_init") is not None:
+        return const_int(n["const_init"], depth + 1)
+    if k == "un" and n.get("op") in ("~", "-", "+"):
+        v = const_int(n["e"], depth + 1)
+        return None if v is None else {"~": ~v, "-": -v, "+": v}[n["op"]]
+    if k == "bin" and n.get("op") in ("|", "&", "+", "-", "<<", "^"):
+        a, b = const_int(n["l"], depth + 1), const_int(n["r"], depth + 1)
+        if a is None or b is None:
+            return None
+        return {"|": a | b, "&": a & b, "+": a + b, "-": a - b, "<<": a << b if 0 <= b < 63 else None, "^": a ^ b}[n["op"]]
+    return None
+
+
 def is_empty_temp(n):
     """a value-initialised / default-constructed temporary or an empty braced list"""
     n = ir.unwrap(n)
